@@ -81,6 +81,11 @@ CHECKS = {
             "All fault positions inside each op of each generated history (sampled above a cap); differs from C02 in that the handle survives the fault, must keep serving reads, must report the error, and the SAME directory is reopened after the fault is gone.",
             "Injector = the library's try_io! sites on the calling thread (stepping mode); reads are issued with the injector paused.",
             "DESIGN.md 4 C16", "pdbv"),
+    "C18": ("exploration",
+            "model-based stateful PBT over actors (in-process handles and child processes): generated open / drop / SIGKILL / write scripts and barrier-released simultaneous opens on directories that need recovery; holder model + directory-snapshot equality",
+            "Scripts over 2-4 actors of both kinds; the oracle is a one-holder model: open succeeds iff no holder, refusals are lock errors that change nothing on disk, a dropped or killed holder frees the directory, exactly one of several simultaneous opens wins.",
+            "Advisory flock semantics of the host; holders run without background threads so refused opens can be compared against a quiescent snapshot.",
+            "DESIGN.md 4 C18", "pdbv"),
 }
 
 NOT_YET = {
